@@ -1001,7 +1001,8 @@ class UnitLib(Lib):
                 # reducing a 2-d array along one axis leaves the other
                 left = "col" if kwargs["axis"].cval == 0 else "row"
                 return AV(num="obj", cls="ndarray", kind=fs("vec_" + left))
-            if dotted == "numpy.where" and len(args) == 1 and \
+            if dotted in ("numpy.where", "numpy.nonzero",
+                          "numpy.flatnonzero") and len(args) == 1 and \
                     args[0].kind is not None and \
                     args[0].kind & {"vec_row", "vec_col"}:
                 ax = "row" if "vec_row" in args[0].kind else "col"
